@@ -316,9 +316,9 @@ func (C19) Generate(c *Ctx, r *Rand, index int) *Scenario {
 		})
 		if rs.Chance(1, 3) {
 			// scalars that an encoder cannot represent
-			sc.Files[0].Docs[0] += "bad: !!int 12abc\ninf: .inf\nfl: !!float xyz\n"
+			sc.Files[0].Docs[0] += "bad: !!int 12abc\ninf: .inf\nfl: !!float xyz\ncx:\n  - ? [p, q]\n    : 1\n"
 			sc.Meta["freeze_data"] = true
-			combo = Pick(rs, [][2]string{{"-o=json", ".bad"}, {"-o=json", ".inf"}, {"-o=json", "."}, {"-o=json", "[.a, .bad]"}, {"-o=json", ".fl"}, {"-o=json", "{\"k\": .inf}"}})
+			combo = Pick(rs, [][2]string{{"-o=json", ".bad"}, {"-o=json", ".inf"}, {"-o=json", "."}, {"-o=json", "[.a, .bad]"}, {"-o=json", ".fl"}, {"-o=json", "{\"k\": .inf}"}, {"-o=csv", ".cx"}, {"-o=tsv", ".cx"}, {"-o=csv", ".cx"}})
 		}
 		evalAll = rs.Chance(1, 4)
 		if evalAll {
